@@ -75,7 +75,7 @@ package fastcgi
 //@   ensures [no_invented_bytes] (err == nil && len(old(w.buf)) > 0) ==> (n <= len(old(w.buf)) && len(w.buf) == len(old(w.buf)) - n)
 //@   ensures [error_reads_nothing] err != nil ==> n == 0
 
-//@ unit fastcgi_parse props=C13,C11 dispenser_variants=on nilchecks=on filter=`fastcgi\.fastcgiParse$`
+//@ unit fastcgi_parse props=C13,C11 dispenser_variants=on nilchecks=on filter=`fastcgi\.(fastcgiParse|parseSRV)$`
 //@ // The setup of one fastcgi rule. C11: safety and termination for every token sequence. C13 ("a request for an existing
 //@ // file with the rule's extension ... is sent to the responder", split at the configured split string): a preset
 //@ // (`fastcgi / addr php`) only supplies DEFAULTS - it is applied before the rule's own block is read, so ext/split/index
@@ -87,8 +87,10 @@ package fastcgi
 //@ ghost blockEntriesRead int
 //@ func fastcgiPreset
 //@   requires rule != nil
-//@   modifies Rule.Ext, Rule.SplitPath, Rule.IndexFiles, E:string
+//@   modifies Rule.Ext, Rule.SplitPath, Rule.IndexFiles
+//@ // a service locator is only parsed when the first upstream starts with the scheme (its [6:] then is in range)
 //@ func parseSRV
+//@   requires [locator_has_the_srv_scheme] strings.HasPrefix(locator, "srv://")
 //@ extern path/filepath.Abs
 //@ func fastcgiParse
 //@   requires c != nil && presetApplied == 0 && blockEntriesRead == 0
@@ -96,7 +98,7 @@ package fastcgi
 //@   at call (*Dispenser).Next do blockEntriesRead = 0
 //@   at call fastcgiPreset before [preset_supplies_defaults_before_the_block_is_read] blockEntriesRead == 0
 //@   at call (*Dispenser).NextBlock do blockEntriesRead = blockEntriesRead + 1
-//@   loop 2 invariant c != nil && len(upstreams) >= 1
+//@   loop 2 invariant c != nil && len(upstreams) >= 1 && (srvUpstream ==> strings.HasPrefix(upstreams[0], "srv://"))
 
 //@ unit setup_sweep props=C11 files=setup.go nilchecks=on nonnil_params=on dispenser_variants=on exclude=`fastcgi\.(fastcgiParse|parseSRV)$` filter=`.`
 //@ // Safety sweep of this directive's setup code: index, slice, division, nil-map store, nil dereference, explicit panic,
